@@ -1,1 +1,35 @@
-(* placeholder *)
+(* C12 - when Stop returns the server is quiescent and its port is released.
+   ONLY statements.  The model is the labelled transition system of Sys.v:
+   every interleaving of the Run thread, any number of Stop calls, connection
+   goroutines, per-request goroutines (with arbitrary handler scripts) and the
+   environment (clients, barriers, slow OnClose).  [reachable cfg s]: s is the
+   result of some label sequence from the initial state.  The boolean fields
+   of [cfg] are the places where the pinned and the current tree differ;
+   [fixed_cfg] is the current tree (validated behaviourally on every run by the
+   scenario correspondence), [pinned_cfg] the tree before the fix commits. *)
+From G Require Import Base Sys SysProofs SysProps.
+Open Scope nat_scope.
+
+Theorem C12_quiescent : forall cfg s,
+  wg_last cfg = true -> add_before_accept cfg = true -> close_on_cancel cfg = true ->
+  reachable cfg s -> stopped s = true -> (exists e, run s = RRet e) ->
+  lst s <> Listening /\ port_bound s = false /\ Forall (conn_quiet cfg) (conns s).
+Proof. exact quiescent_after_stop. Qed.
+Print Assumptions C12_quiescent.
+
+Theorem C12_wait_group : forall cfg s, reachable cfg s -> wg_inv cfg s.
+Proof. exact wg_inv_reachable. Qed.
+Print Assumptions C12_wait_group.
+
+Theorem C12_stopped_stays : forall cfg s, add_before_accept cfg = true -> reachable cfg s -> stopped_inv s.
+Proof. exact stopped_inv_reachable. Qed.
+Print Assumptions C12_stopped_stays.
+
+Theorem C12_pinned_refuted : exists s, run_labels pinned_cfg init
+              [ECallRun true true; LRun; LRun; EConnect; LRun; LRun; LConn 0; LConn 0;
+               ESend 0 (IReq KNormal [HBarrier 1]); LConn 0; LConn 0; EClose 0; LConn 0; LConn 0;
+               ECallStop; LStop 0; LStop 0; LStop 0; LRun] = Some s /\
+            stopped s = true /\ run s = RRet false /\
+            exists c, nth_error (conns s) 0 = Some c /\ sock_closed c = false /\ onclose c = 0.
+Proof. exact quiescent_pinned_refuted. Qed.
+Print Assumptions C12_pinned_refuted.
